@@ -159,6 +159,8 @@ def grid_designs():
                     d.family = "grid"
                     out.append(d)
     out += index_designs(k)
+    out += vslice_designs()
+    out += branchy_comb_designs()
     out += func_designs(k + 1000)
     out += deep_designs(k + 2000)
     return out
@@ -291,6 +293,85 @@ def index_designs(k0=0):
                     blk(d, "r1", (), [as_(View(o2), add(rd(View(o)), lit(8, 1), 8))])
                     d.family = "grid"
                     out.append(d)
+    return out
+
+
+def branchy_comb_designs():
+    """Many data-dependent (branchy) COMBINATIONAL blocks that are schedulable together: Mamba2020 packs them
+    into trace-breaking meta blocks of bounded branchiness (6 branchy blocks / branchiness 20); every block -
+    the one at a meta-block boundary included - must run exactly once, before its reader.
+    Added after seeded change C02-E (the block popped when the bound is reached was appended nowhere)."""
+    out = []
+    for k, n in enumerate((8, 13, 20)):
+        d = _mk("B%d" % k)
+        a = d.add_sig((), "a", "in", 4)
+        b = d.add_sig((), "b", "in", 4)
+        xs = [d.add_sig((), "x%d" % j, "wire", 4) for j in range(n)]
+        ys = [d.add_sig((), "y%d" % j, "out", 4) for j in range(n)]
+        o = d.add_sig((), "o", "out", 4)
+        for j in range(n):
+            cond = rd(View(a, (), (j % 4, j % 4 + 1)))
+            inner = {"k": "if", "c": rd(View(b, (), ((j + 1) % 4, (j + 1) % 4 + 1))),
+                     "th": [as_(View(xs[j]), xor(rd(View(b)), lit(4, (3 * j + 1) % 16), 4))],
+                     "el": [as_(View(xs[j]), add(rd(View(a)), rd(View(b)), 4))]}
+            blk(d, "s%d" % j, (), [{"k": "if", "c": cond, "th": [as_(View(xs[j]), add(rd(View(a)), lit(4, (j + 1) % 16), 4))],
+                                    "el": [inner] if j % 3 == 0 else [as_(View(xs[j]), xor(rd(View(b)), lit(4, j % 16), 4))]}])
+            blk(d, "r%d" % j, (), [as_(View(ys[j]), add(rd(View(xs[j])), lit(4, 1), 4))])
+        acc = rd(View(ys[0]))
+        for j in range(1, n):
+            acc = xor(acc, rd(View(ys[j])), 4)
+        blk(d, "c0", (), [as_(View(o), acc)])
+        d.family = "grid"
+        out.append(d)
+    return out
+
+
+def vslice_designs(k0=0):
+    """Slices whose BOUNDS are computed from signals (`s.data[ b : b + 4 ]`, legal in simulation): the signals
+    in the bounds are read by the block, and the whole sliced signal counts as read / written.  The base is
+    produced by its own block, by a net, or is a slice of a wider wire written by a block, so that the only
+    thing ordering producer and consumer is the dependency through the BOUND; read in an expression and used as
+    the target of an assignment (after a whole-signal default in the same block).
+    Added after seeded change C02-F (reads inside slice bounds dropped from the read set of a block)."""
+    out = []
+    k = k0
+    for lo_via in ("blk", "net", "slice"):
+        for use in ("read", "write", "both"):
+            for w in (4, 2):
+                d = _mk("V%d" % k)
+                k += 1
+                a = d.add_sig((), "a", "in", 8)
+                b = d.add_sig((), "b", "in", 8)
+                si = d.add_sig((), "si", "in", 4)
+                data = d.add_sig((), "data", "wire", 8)
+                word = d.add_sig((), "word", "out", 8)
+                o = d.add_sig((), "o", "out", w)
+                o2 = d.add_sig((), "o2", "out", 8)
+                if lo_via == "slice":
+                    low = d.add_sig((), "low", "wire", 4)
+                    blk(d, "wl", (), [as_(View(low), xor(rd(View(si)), rd(View(b, (), (0, 4))), 4))])
+                    lov = View(low, (), (1, 3))
+                else:
+                    lo = d.add_sig((), "lo", "wire", 2)
+                    lov = View(lo)
+                    if lo_via == "blk":
+                        blk(d, "wl", (), [as_(lov, xor(rd(View(si, (), (0, 2))), rd(View(b, (), (0, 2))), 2))])
+                    else:
+                        conn(d, View(si, (), (0, 2)), lov, ())
+                base = {"k": "zext", "a": rd(lov), "w": 4}          # 0..3, so base + w <= 8
+                blk(d, "wd", (), [as_(View(data), add(rd(View(a)), lit(8, 17), 8))])
+                if use in ("read", "both"):
+                    blk(d, "r0", (), [as_(View(o), {"k": "vsl", "sig": data, "b": base, "w": w})])
+                else:
+                    blk(d, "r0", (), [as_(View(o), rd(View(data, (), (0, w))))])
+                if use in ("write", "both"):
+                    blk(d, "m0", (), [as_(View(word), rd(View(b))),
+                                      {"k": "asv", "sig": word, "b": base, "w": w, "e": rd(View(data, (), (8 - w, 8)))}])
+                else:
+                    blk(d, "m0", (), [as_(View(word), rd(View(data)))])
+                blk(d, "r1", (), [as_(View(o2), add(rd(View(word)), {"k": "zext", "a": rd(View(o)), "w": 8}, 8))])
+                d.family = "grid"
+                out.append(d)
     return out
 
 
